@@ -12,7 +12,8 @@ for d in sorted(glob.glob('/verif/seeded/*')):
     checks = sorted(set(re.findall(r'\[C\d\d\] ([A-Za-z0-9_\-]+) failed', tail)))
     hist = m.get('quick_check_history', '')
     v = m.get('quick_check_verdict')
-    if hist.startswith('MISSED'):
+    fv = m.get('first_verdict') or ''
+    if (hist.startswith('MISSED') or fv.startswith('MISSED')) and v == 'CAUGHT':
         v = 'MISSED at first, CAUGHT after strengthening'
     cut = lambda x, n: (x[:n] + '…') if len(x) > n else x
     print("| %s | %s | %s | %s | %s |" % (os.path.basename(d), cut((m.get('summary') or '').replace('|', '\\|').replace('\n', ' '), 230), cut((m.get('needs') or '').replace('|', '\\|').replace('\n', ' '), 200), v, ', '.join(checks) or '(see meta.json)'))
